@@ -185,6 +185,40 @@ func GenStructPair(t *rapid.T, pf Profile, idx int) (src, dst StructDecl) {
 			usedS[en(e1)], usedD[en(e2)] = true, true
 			src.Fields = append(src.Fields, Field{Name: "", Home: e1.Home, Ext: e1.Ext, Kind: "embedded:" + e1.Kind})
 			dst.Fields = append(dst.Fields, Field{Name: "", Home: e2.Home, Ext: e2.Ext, Kind: "embedded:" + e2.Kind})
+		case k < 81: // a Stringer on the source side (value or pointer receiver, field or getter) and a string on the other
+			var strs, dsts []TypeAtom
+			for _, x := range atoms {
+				if strings.HasPrefix(x.Kind, "stringer") {
+					strs = append(strs, x)
+				}
+				switch x.Home {
+				case "string", "LStr", "ext.MyStr", "interface{}":
+					dsts = append(dsts, x)
+				}
+			}
+			if len(strs) == 0 || len(dsts) == 0 {
+				continue
+			}
+			sa := rapid.SampledFrom(strs).Draw(t, "strSrc")
+			da := rapid.SampledFrom(dsts).Draw(t, "strDst")
+			if rapid.Bool().Draw(t, "strViaGetter") {
+				back := unexportName(name) + "_"
+				gname := exportName(name)
+				if usedS[back] || usedS[gname] {
+					continue
+				}
+				typ := sa.Home
+				if src.Pkg == "ext" {
+					typ = sa.Ext
+				}
+				addS(mk(back, sa))
+				usedS[gname] = true
+				src.Getters = append(src.Getters, Getter{Name: gname, Field: back, Type: typ, PtrRecv: rapid.Bool().Draw(t, "strGetterPtr")})
+				addD(mk(gname, da))
+			} else {
+				addS(mk(name, sa))
+				addD(mk(name, da))
+			}
 		case k < 83: // source only
 			addS(mk(name, a))
 		case k < 90: // destination only
@@ -369,6 +403,16 @@ func knownMembers(home string, forSource bool) []member {
 		}
 	case "ext.Inner2", "*ext.Inner2":
 		ms = []member{{"A", "int64"}, {"B", "ext.MyStr"}, {"D", "int"}}
+	case "LDeep":
+		ms = []member{{"X", "int"}, {"N", "LInt"}, {"In", "LInner"}}
+		for _, k := range knownMembers("LInner", forSource) {
+			ms = append(ms, member{"In." + k.Path, k.Home})
+		}
+	case "LDeep2":
+		ms = []member{{"X", "int64"}, {"N", "int"}, {"In", "LInner2"}}
+		for _, k := range knownMembers("LInner2", forSource) {
+			ms = append(ms, member{"In." + k.Path, k.Home})
+		}
 	case "LInnerG", "ext.InnerG":
 		ms = []member{{"A", "int"}, {"C", "int"}, {"PB", "string"}}
 	case "oh.Rec":
@@ -530,8 +574,17 @@ func GenNotations(t *rapid.T, m *Method, src, dst StructDecl, uf *UserFuncs, pf 
 		return
 	}
 	n := rapid.IntRange(0, 4).Draw(t, "nnotes")
+	var deep []member
+	for _, d := range dms {
+		if strings.Count(d.Path, ".") >= 2 {
+			deep = append(deep, d)
+		}
+	}
 	for i := 0; i < n; i++ {
 		d := rapid.SampledFrom(dms).Draw(t, "ndst")
+		if len(deep) > 0 && rapid.IntRange(0, 2).Draw(t, "deepDst") == 0 {
+			d = rapid.SampledFrom(deep).Draw(t, "ndeep")
+		}
 		switch k := rapid.IntRange(0, 9).Draw(t, "nkind"); {
 		case k < 2:
 			if rapid.IntRange(0, 2).Draw(t, "re") == 0 {
@@ -596,6 +649,13 @@ func GenProg(t *rapid.T, pf Profile) *Prog {
 		pairs = append(pairs, pair{s, d})
 		p.Structs = append(p.Structs, s, d)
 	}
+	// two same-named packages (a/model, b/model) that only the sibling file home/types.go imports
+	dupNames := pf.ExtStructs && rapid.IntRange(0, 7).Draw(t, "dupNames") == 0
+	if dupNames {
+		p.Structs = append(p.Structs,
+			StructDecl{Pkg: "home", Name: "DupS", Fields: []Field{{Name: "A", Home: "[]int"}, {Name: "B", Home: "[]int"}, {Name: "C", Home: "int"}}},
+			StructDecl{Pkg: "home", Name: "DupD", Fields: []Field{{Name: "A", Home: "[]am.AInt"}, {Name: "B", Home: "[]bm.BInt"}, {Name: "C", Home: "bm.BInt"}}})
+	}
 	nif := rapid.IntRange(1, max(1, pf.MaxIfaces)).Draw(t, "nifaces")
 	mi := 0
 	for k := 0; k < nif; k++ {
@@ -647,6 +707,9 @@ func GenProg(t *rapid.T, pf Profile) *Prog {
 					if pf.ErrHeavy && m.RetErr {
 						herr = rapid.IntRange(0, 3).Draw(t, "herrHeavy") != 0
 					}
+					if pf.ErrHeavy && !m.RetErr && rapid.IntRange(0, 5).Draw(t, "herrIllegal") == 0 {
+						herr = true // cannot fit: the tool must refuse it (C07, C10)
+					}
 					var ex []Param
 					if len(m.Extras) > 0 && rapid.Bool().Draw(t, "hextras") {
 						ex = m.Extras
@@ -659,6 +722,12 @@ func GenProg(t *rapid.T, pf Profile) *Prog {
 			if pf.Docs && rapid.IntRange(0, 2).Draw(t, "mdoc") == 0 {
 				m.Doc = []string{fmt.Sprintf("%s copies %s into %s.", m.Name, m.SrcType, m.DstType)}
 			}
+			it.Methods = append(it.Methods, m)
+		}
+		if dupNames && k == 0 {
+			m := Method{Name: fmt.Sprintf("Convert%02dDupNames", mi), SrcType: "DupS", DstType: "DupD", SrcPtr: true, DstPtr: true}
+			mi++
+			m.Opts.Typecast = 1
 			it.Methods = append(it.Methods, m)
 		}
 		// methods over the package-layout zoo (directory != package name, /v2 path, two packages of the
